@@ -1634,11 +1634,13 @@ async fn emit_event(
     let verif_ctx = format!("{}:{}", event.session_id, event.seq);
     #[cfg(rip_verif)]
     rip_kernel::verif::point("emit.before_publish", &verif_ctx);
+    // Record first, then publish, both under the buffer lock: a stream handler subscribes and
+    // then snapshots the buffer, so every frame reaches it through the snapshot or the channel.
+    let mut guard = buffer.lock().await;
+    guard.push(event.clone());
     let _ = sender.send(event.clone());
     #[cfg(rip_verif)]
     rip_kernel::verif::point("emit.after_publish", &verif_ctx);
-    let mut guard = buffer.lock().await;
-    guard.push(event.clone());
     let _ = event_log.append(&event);
 }
 
